@@ -46,6 +46,7 @@ func runC16(c *Ctx) {
 	c.rulePlainStatusStoresAs("R16.2")
 	c.ruleCompletionOrder("R16.2")
 	c.ruleCasTransitions("R16.3")
+	c.ruleWaitWaits("R16.4")
 }
 
 func (c *Ctx) ruleQueuedBeforePublication(rule string) {
@@ -111,6 +112,12 @@ func runC17(c *Ctx) {
 	c.ruleIncrementSite("R17.5")
 	c.ruleDecrementSite("R17.5")
 	c.rulePurgeResetsBoth("R17.6")
+	// Submitted is counted once per accepted job: persistent queues count in Add, only distributed queues subscribe
+	c.rulePersistentAccept("R17.7")
+	c.ruleDistributedBinders("R17.7")
+	// NumProcessing <= NumConcurrency needs one dispatcher at a time
+	c.ruleOneDispatcher("R17.8")
+	c.ruleDispatcherJoined("R17.8")
 }
 
 func (c *Ctx) ruleMultiCounterReads(rule string) {
@@ -392,6 +399,8 @@ func runC18(c *Ctx) {
 	c.ruleSnapshotBounds("R18.4")
 	c.ruleMinimumIdle("R18.5")
 	c.ruleNodeKeptOrRetired("R18.6")
+	// TunePool makes the new limit effective: it stores the limit and only then wakes the dispatcher
+	c.ruleNotifyAfterChange("R18.7")
 	c.Rep.rule("R01.4", "typestate", "Send/Stop/PushNode/Cache.Put on a pool node require ownership (a stopped node that still serves a job, or an idle node that is stopped, breaks the pool accounting)", 6)
 	c.runOwnership("R01.4")
 }
@@ -1011,4 +1020,54 @@ func (c *Ctx) ruleMinimumIdle(rule string) {
 		}
 		c.Rep.check(sawKeep, rule, R.FreeNode.Short(), "no minimum-idle test", c.P.pos(R.FreeNode.Body), "freePoolNode compares the idle count with the minimum", "freePoolNode never compares the idle count with the configured minimum: idle workers are not kept")
 	}
+}
+
+// ruleWaitWaits: the Wait methods of the job family return only through the WaitGroup (or batch counter) that Close
+// releases, or — under interference, where a Load of the status may return any value — on a path on which the status was
+// read as Closed. A shortcut on "Finished or later" returns between the pool goroutine's store of Finished and its
+// Close: the caller then still reads "Finished" after Wait has returned.
+func (c *Ctx) ruleWaitWaits(rule string) {
+	R := c.R
+	c.Rep.rule(rule, "E2 must-pass-through (interference)", "every Wait of the job family passes through WaitGroup.Wait / WgCounter.Wait unless the status was read as Closed", 2)
+	js := c.jobStatus()
+	var domain []string
+	for _, n := range []string{"Created", "Queued", "Processing", "Finished", "Closed"} {
+		domain = append(domain, js.ByName[n])
+	}
+	n := 0
+	for _, f := range c.P.pkgFuncs(modPath) {
+		if f.Obj == nil || f.Decl.Recv == nil || f.Obj.Name() != "Wait" || f.Body == nil {
+			continue
+		}
+		if !isJobFamily(f.Obj.Type().(*types.Signature).Recv().Type()) {
+			continue
+		}
+		n++
+		sr := &seqRule{c: c, rule: rule, trackField: R.FJobStatus, trackAny: domain, loadSyms: true}
+		sr.classify = func(fr *Frame, call *ast.CallExpr, ce *Callee, args []Value) *callEvent {
+			switch ce.Key {
+			case "sync.WaitGroup.Wait", modPath + "/internal/helpers.WgCounter.Wait":
+				return &callEvent{Name: "wgwait", Atomic: true}
+			}
+			return nil
+		}
+		for _, sg := range sr.segments(f) {
+			if sg.Kind != "path" {
+				continue
+			}
+			if sg.has("wgwait") {
+				c.Rep.ok(rule, f.Short()+": path waits", sg.End, "passes through the WaitGroup", true)
+				continue
+			}
+			onlyClosed := false
+			for _, s := range sg.Syms {
+				if strings.HasPrefix(s, "load:") {
+					onlyClosed = s == "load:Closed" || s == "load:"+js.ByName["Closed"]
+				}
+			}
+			c.Rep.check(onlyClosed, rule, f.Short(), "Wait returns without waiting", sg.End, "returns through the WaitGroup",
+				f.Short()+" has a path that returns without waiting on the WaitGroup although the job was not read as Closed: Wait can return while the job is still Finished-but-not-Closed (or earlier) ["+strings.Join(sg.Syms, " ")+"]")
+		}
+	}
+	c.Rep.check(n > 0, rule, "-", "no Wait method found", "", "job family has Wait methods", "no Wait method of the job family found")
 }
